@@ -288,7 +288,9 @@ def eq(a, b, tol=None):
         if aa.shape != bb.shape and aa.ndim and bb.ndim:
             return False
         scale = max(float(np.max(np.abs(aa))) if aa.size else 0.0, float(np.max(np.abs(bb))) if bb.size else 0.0)
-        return bool(np.all(np.abs(aa - bb) <= S.abs_tol + rt * max(scale, 1e-300)))
+        # absolute slack only for quantities of ordinary magnitude (cross sections are ~1e-33)
+        slack = S.abs_tol if scale > 1e-3 or scale == 0.0 else 0.0
+        return bool(np.all(np.abs(aa - bb) <= slack + rt * max(scale, 1e-300)))
     except TypeError:
         return a == b
 
@@ -425,6 +427,10 @@ def draws():
 
 def call_real(fn, *a, **k):
     return fn(*a, **k)
+
+
+def loop_invariant(qualname, ordinal, fn, name=None, havoc=()):
+    pass
 
 
 def set_unroll(n):
